@@ -110,7 +110,7 @@ void harness_case(Dec &d, Case &c) {
             else { KSI_Signature *s0 = nullptr; KSI_AsyncHandle_getSignature(out, &s0); KSI_Signature_free(s0); res = KSI_AsyncService_addRequest(as, hnd); if (res != KSI_OK) { KSI_AsyncHandle_free(hnd); } else c.cls("readd:same-handle-added-again"); } }
         if (res == KSI_OK) { KSI_AsyncHandle *out = nullptr; size_t waiting = 0; res = KSI_UNKNOWN_ERROR;
             for (int round = 0; round < 200 && !out; round++) { int r2 = KSI_AsyncService_run(as, &out, &waiting); if (r2 != KSI_OK && !out) { /* service-level error: keep running */ } sim::net().now += 1; if (!out && waiting == 0 && round > 3) break; }
-            if (out) { KSI_AsyncHandle_getState(out, &asyncState); if (asyncState == KSI_ASYNC_STATE_RESPONSE_RECEIVED) { res = KSI_AsyncHandle_getSignature(out, &sig); } else { asyncErr = true; int e = 0; KSI_AsyncHandle_getError(out, &e); res = e ? e : KSI_UNKNOWN_ERROR; KSI_Signature *s1 = nullptr; int rs = KSI_AsyncHandle_getSignature(out, &s1); if (rs == KSI_OK && s1) { res = KSI_OK; sig = s1; asyncErr = false; c.cls("async:signature-from-a-failed-handle"); } else KSI_Signature_free(s1); } KSI_AsyncHandle_free(out); }
+            if (out) { KSI_AsyncHandle_getState(out, &asyncState); if (asyncState == KSI_ASYNC_STATE_RESPONSE_RECEIVED) { if (sc.doc[1] & 1) { /* the signature is asked for twice: the second object is judged */ KSI_Signature *first = nullptr; KSI_AsyncHandle_getSignature(out, &first); KSI_Signature_free(first); c.cls(sc.level ? "async:signature-requested-twice:level>0" : "async:signature-requested-twice"); } res = KSI_AsyncHandle_getSignature(out, &sig); } else { asyncErr = true; int e = 0; KSI_AsyncHandle_getError(out, &e); res = e ? e : KSI_UNKNOWN_ERROR; KSI_Signature *s1 = nullptr; int rs = KSI_AsyncHandle_getSignature(out, &s1); if (rs == KSI_OK && s1) { res = KSI_OK; sig = s1; asyncErr = false; c.cls("async:signature-from-a-failed-handle"); } else KSI_Signature_free(s1); } KSI_AsyncHandle_free(out); }
             else { res = KSI_NETWORK_ERROR; stats().count("async:request-not-returned-within-200-rounds"); if (honestEquivalent || sc.dev != D_NO_REPLY) { /* lost requests are C13's subject */ } } }
         KSI_AsyncService_free(as);
     }
